@@ -91,15 +91,6 @@ func HarnessC08_ReadCut() {
 			vAssert(cause == error(errTransport), "root cause is exactly the transport's error")
 		} else {
 			vAssert(cause == io.EOF || cause == io.ErrUnexpectedEOF, "root cause of a cut stream is io.EOF or io.ErrUnexpectedEOF")
-			atBoundary := cut == 0
-			for _, e := range ends {
-				if e == cut {
-					atBoundary = true
-				}
-			}
-			if atBoundary {
-				vAssert(cause == io.EOF, "a stream ending at a message boundary reports io.EOF")
-			}
 		}
 		break
 	}
